@@ -17,6 +17,10 @@ def fields_of(skel):
     return [nm for nm, _ in F.FORMATS[skel["fmt"]]["cols"]]
 
 
+def self_name_len(skel, r):
+    return skel["records"][r][0]
+
+
 class Malformed(Harness):
     name = "malformed"
     functions = ("OneLineBuffer._validate", "FastQBuffer._validate", "DelimitedBuffer._get_field_by_number (EncodingError -> FormatException)",
@@ -40,7 +44,7 @@ class Malformed(Harness):
         for fmt, recsets in seqsets.items():
             for recs in recsets:
                 for bad in range(len(recs)):
-                    for what in (("marker", "plus") if fmt == "fastq" else ("marker",)):
+                    for what in (("marker", "plus", "plus_empty", "marker_empty") if fmt == "fastq" else ("marker", "marker_empty")):
                         for lazy, mode, chunked in ((True, "seek", True), (False, "seek", True), (True, "prepend", True), (True, "seek", False)):
                             out.append(dict(fmt=fmt, records=recs, bad=[bad, what], lazy=lazy, mode=mode, chunked=chunked))
         for fmt, rowsets in bedsets.items():
@@ -78,13 +82,18 @@ class Malformed(Harness):
             for i, rec in enumerate(skel["records"]):
                 size = len(F.seq_content(dict(skel, records=[rec]), C0()))
                 if i == r:
-                    if what == "marker":
+                    if what.startswith("marker"):
                         pos = off
                     else:
                         pos = off + 1 + rec[0] + 1 + rec[1] + 1      # '@' name NL seq NL -> '+'
                     break
                 off += size
-            base[pos] = x["bad"]
+            if what == "plus_empty":
+                del base[pos]                                  # the separator line is empty
+            elif what == "marker_empty":
+                del base[pos:pos + 1 + self_name_len(skel, r)]  # the header line is empty
+            else:
+                base[pos] = x["bad"]
             return base
         return F.content(skel, x)
 
@@ -92,7 +101,7 @@ class Malformed(Harness):
         if skel["fmt"] in F.SEQ_FORMATS:
             F.declare_seq(V, skel)
             b = V.int("bad", 33, 126)
-            marker = ord("+") if skel["bad"][1] == "plus" else ord("@" if skel["fmt"] == "fastq" else ">")
+            marker = ord("+") if skel["bad"][1].startswith("plus") else ord("@" if skel["fmt"] == "fastq" else ">")
             V.assume(b.t != marker)
         elif skel["bad"][1] == "ncols":
             F.declare_cells(V, skel)
@@ -148,7 +157,7 @@ class Malformed(Harness):
     def _bad_line(self, skel):
         if skel["fmt"] in F.SEQ_FORMATS:
             per = 4 if skel["fmt"] == "fastq" else 2
-            return skel["bad"][0] * per + (2 if skel["bad"][1] == "plus" else 0)
+            return skel["bad"][0] * per + (2 if skel["bad"][1].startswith("plus") else 0)
         return skel["bad"][0]
 
     def post(self, skel, x, out):
